@@ -139,6 +139,35 @@ def evaluate(case, directory, differential=True):
                                      'handler_bid_ask': [float(x) for x in hba], 'handler_mid': float(hm)}})
             break
     nload = 1
+    if not fails:
+        # the answer is a function of (dataset, t) only: asking in another ORDER, on a source object that has
+        # not answered these questions before, must give the same answers (descending and far/near zig-zag)
+        zig = []
+        lo, hi = 0, len(times) - 1
+        while lo <= hi:
+            zig.append(times[hi])
+            if lo != hi:
+                zig.append(times[lo])
+            lo, hi = lo + 1, hi - 1
+        for order_name, seq in (('descending', times[::-1]), ('zigzag', zig)):
+            market.clear_caches()
+            try:
+                src3 = load(rows, case['order'], adjust, directory)
+            except Exception as e:  # noqa
+                fails.append({'clause': 'C06.load_error', 'detail': {'error': repr(e)}, 'case': case})
+                break
+            nload += 1
+            for t in seq:
+                nq += 1
+                v3 = src3.get_bid(pd.Timestamp(t), 'EQ:AAA')
+                a3 = src3.get_ask(pd.Timestamp(t), 'EQ:AAA')
+                if not same(float(answers[t]), v3) or not same(float(answers[t]), a3):
+                    fails.append({'clause': 'C06.depends_on_query_order', 'case': case,
+                                  'detail': {'t': str(t), 'query_order': order_name, 'ascending_answer': float(answers[t]),
+                                             'this_answer': [float(v3), float(a3)]}})
+                    break
+            if fails:
+                break
     if differential and not fails:
         # point-in-time without any expected value: the answer at t on the full file equals the answer
         # on the file truncated to the rows dated <= t's date
